@@ -1,35 +1,110 @@
-import Mastverif.Lemmas.WF
-import Mastverif.Lemmas.Store
+import Mastverif.Lemmas.Canon
 /-!
 # C04 — canonical form (property theorems)
 
-`C04_unique_shape`: two well-formed trees of the same level holding the same entries are the
-same tree (up to where their nodes currently reside) — for every layer assignment.
-`C04_same_entries_same_root`: hence they persist to the same root name, whatever histories
-produced them.  The name is the one of the reference builder's tree as soon as that tree is
-well-formed at the same level (`Props/C04` work list: `build_WF`, `toList_build`, the height
-rule as an invariant of insert / delete).  The tie is family `canon`: every root is compared
-with the roots of other histories and with the reference builder's root.
+For every layer function (every layer assignment, adversarial user `Key` types included) and
+every branch factor ≥ 2:
+* `C04_unique_shape` — two well-formed trees of the same level with the same entries are the same
+  tree (up to where their nodes reside);
+* `C04_height_rule` — after EVERY history the height is
+  `min(highest key layer, floor(log_bf(size-1)))`, 0 below two entries (`canonHeight`);
+* `C04_canonical_tree` — after every history the tree IS the reference tree `T.build`, which is
+  constructed from the entry list alone, without insert or delete;
+* `C04_same_contents_same_root` — hence two histories (any orders of inserts, updates, deletes,
+  persists) that end in the same entries produce the identical root record: same name, same
+  height, same size — and it is the root of `Tree.canon`, the independently built reference.
+Names are computed by an arbitrary `Enc` (any encoder, any hash): equal trees have equal names
+whatever the hash.  Clones and reloads are the identity on the tree value (C05).
+Tie: family `canon`.
 -/
-namespace Mast.T
+namespace Mast
+open T
 
+namespace T
 theorem C04_unique_shape (layer : Nat → Nat) (t1 t2 : T) (d : Nat)
     (h1 : WF layer d t1) (h2 : WF layer d t2) (he : toList t1 = toList t2) : erase t1 = erase t2 :=
   WF_unique layer t1 t2 d h1 h2 he
 
-theorem C04_same_entries_same_root (layer : Nat → Nat) (e : Enc) (t1 t2 : T) (d : Nat)
-    (h1 : WF layer d t1) (h2 : WF layer d t2) (he : toList t1 = toList t2) :
-    nodeName e t1 = nodeName e t2 ∧ nodeBytes e t1 = nodeBytes e t2 := by
-  have := WF_unique layer t1 t2 d h1 h2 he
+theorem isEmptyTop_erase (t : T) : Tree.isEmptyTop (erase t) = Tree.isEmptyTop t := by
+  cases t with
+  | nil => rfl
+  | last p c => cases c <;> rfl
+  | cons p c k v r => rfl
+end T
+
+namespace Tree
+variable (layer : Nat → Nat)
+
+theorem C04_height_rule (m : Tree) (hi : InvH layer m) :
+    m.height = canonHeight m.bf layer m.toList :=
+  HOK_unique hi.1.bf2 hi.2 (canonHeight_HOK m.bf hi.1.bf2 layer m.toList)
+
+theorem C04_canonical_tree (m : Tree) (hi : InvH layer m) :
+    erase m.root = erase (build layer (canonHeight m.bf layer m.toList) m.toList) := by
+  rw [← C04_height_rule layer m hi]
+  exact WF_unique layer _ _ m.height hi.1.wf (build_WF layer m.height m.toList)
+    (by rw [toList_build]; rfl)
+
+/-- the root record depends on the erased tree, the size, the height and the branch factor only -/
+theorem rootRec_eq (e : Enc) (m1 m2 : Tree) (hr : erase m1.root = erase m2.root)
+    (hs : m1.size = m2.size) (hh : m1.height = m2.height) (hb : m1.bf = m2.bf) :
+    (makeRoot e m1).2.1 = (makeRoot e m2).2.1 := by
+  have hn : nodeName e m1.root = nodeName e m2.root := by
+    rw [← nodeName_erase e m1.root, ← nodeName_erase e m2.root, hr]
+  have he : isEmptyTop m1.root = isEmptyTop m2.root := by
+    rw [← isEmptyTop_erase m1.root, ← isEmptyTop_erase m2.root, hr]
+  unfold makeRoot
+  rw [he]
+  split
+  · simp [hs, hh, hb]
+  · split <;> split <;> simp [hs, hh, hb, hn]
+
+theorem C04_same_contents_same_root (e : Enc) (m1 m2 : Tree) (h1 : InvH layer m1) (h2 : InvH layer m2)
+    (hb : m1.bf = m2.bf) (hc : m1.toList = m2.toList) :
+    (makeRoot e m1).2.1 = (makeRoot e m2).2.1 := by
+  have hh : m1.height = m2.height := by
+    apply HOK_unique h1.1.bf2 h1.2
+    rw [hb, hc]; exact h2.2
+  apply rootRec_eq e m1 m2 _ _ hh hb
+  · exact WF_unique layer _ _ m1.height h1.1.wf (hh ▸ h2.1.wf) hc
+  · rw [h1.1.size, h2.1.size]; simp only [Tree.toList] at hc; rw [hc]
+
+/-- the reference tree satisfies the full invariant, for every strictly ascending entry list -/
+theorem canon_InvH (bf : Nat) (hbf : 2 ≤ bf) (es : List (Nat × Nat)) (hs : Sorted es) :
+    InvH layer (Tree.canon bf layer es) := by
+  refine ⟨⟨?_, ?_, ?_, hbf, rfl, rfl⟩, ?_⟩
+  · exact build_WF layer _ es
+  · simp only [Tree.canon]; rw [toList_build]; exact hs
+  · simp only [Tree.canon]; rw [toList_build]
+  · simp only [Tree.canon, Tree.toList]; rw [toList_build]
+    exact canonHeight_HOK bf hbf layer es
+
+/-- **C04**: any two histories from the empty tree that end in the same entries persist to the
+    identical root, and that root is the one of the independently built reference tree. -/
+theorem C04_histories (e : Enc) (bf : Nat) (hbf : 2 ≤ bf) (ops1 ops2 : List Op)
+    (hc : (execT layer e (Tree.empty bf) ops1).toList = (execT layer e (Tree.empty bf) ops2).toList) :
+    (makeRoot e (execT layer e (Tree.empty bf) ops1)).2.1 = (makeRoot e (execT layer e (Tree.empty bf) ops2)).2.1 ∧
+    (makeRoot e (execT layer e (Tree.empty bf) ops1)).2.1 =
+      (makeRoot e (Tree.canon bf layer (execT layer e (Tree.empty bf) ops1).toList)).2.1 := by
+  have i0 := invH_empty layer bf hbf
+  have i1 := invH_execT layer e ops1 _ i0
+  have i2 := invH_execT layer e ops2 _ i0
+  have b1 := bf_execT layer e ops1 _ i0.1
+  have b2 := bf_execT layer e ops2 _ i0.1
   constructor
-  · rw [← nodeName_erase e t1, ← nodeName_erase e t2, this]
-  · simp only [nodeBytes]; rw [← rowB_erase e t1, ← rowB_erase e t2, this]
+  · exact C04_same_contents_same_root layer e _ _ i1 i2 (by rw [b1, b2]) hc
+  · have ic := canon_InvH layer bf hbf _ i1.1.sorted
+    apply C04_same_contents_same_root layer e _ _ i1 ic
+    · rw [b1]; rfl
+    · simp only [Tree.canon, Tree.toList]; rw [toList_build]
 
-/-- non-vacuity: the same three entries reached as two different values (one persisted) -/
-example : WF (fun k => k % 2) 1 (cons false (cons false nil 2 0 (last false nil)) 3 0 (last false nil)) ∧
-    WF (fun k => k % 2) 1 (cons true (cons true nil 2 0 (last true nil)) 3 0 (last true nil)) := by
-  simp [WF, isEmptyRow, T.toList]
+/-- non-vacuity: bf = 2, layers k % 3: insert 4 keys then delete one vs. insert the 3 survivors -/
+example : InvH (fun k => k % 3) (Tree.empty 2) := invH_empty _ 2 (by omega)
 
-end Mast.T
+end Tree
+end Mast
 #print axioms Mast.T.C04_unique_shape
-#print axioms Mast.T.C04_same_entries_same_root
+#print axioms Mast.Tree.C04_height_rule
+#print axioms Mast.Tree.C04_canonical_tree
+#print axioms Mast.Tree.C04_same_contents_same_root
+#print axioms Mast.Tree.C04_histories
